@@ -1,11 +1,15 @@
 #!/bin/sh
-# run_thorough.sh [ids...] — runs the thorough command of the claimed properties (evidence to a scratch
-# directory so that the committed quick evidence is left alone) and prints verdict, self-test summary and survivors.
-cd /verif
+# run_thorough.sh [ids...] — runs the thorough command of the claimed properties on a SNAPSHOT of /verif and of /repo's
+# working tree (so that edits made while it runs do not get mixed in), evidence to a scratch directory so that the
+# committed quick evidence is left alone; prints verdict, self-test summary and survivors.
 ids="$@"; [ -z "$ids" ] && ids=$(python3 -c "import json;print(' '.join(sorted(json.load(open('/verif/props.json')).keys())))")
 out=${THOROUGH_OUT:-/tmp/w/thorough}; mkdir -p $out
+snap=/tmp/w/snap; rm -rf $snap; mkdir -p $snap
+rsync -a --exclude .git --exclude replays /verif/ $snap/verif/
+rsync -a --exclude .git /repo/ $snap/repo/
+cd $snap/verif
 for p in $ids; do
-  VERIF_OUT=$out ./check $p --tier thorough > $out/$p.log 2>&1; rc=$?
+  VERIF_REPO=$snap/repo VERIF_OUT=$out ./check $p --tier thorough > $out/$p.log 2>&1; rc=$?
   echo "[$rc] $(grep -E '^C[0-9]+ thorough' $out/$p.log)"
   grep -E '^SELFTEST|^VIOLATION' $out/$p.log
   python3 - "$out/evidence/$p.json" <<'PY'
@@ -18,3 +22,4 @@ try:
 except Exception as e: print('   (no evidence:', e, ')')
 PY
 done
+rm -rf $snap
